@@ -104,6 +104,26 @@ class NF:
         return run_body(self)
 
 
+class _SubsetFilterMixin:
+    """A context filter that task types INHERIT (it is not defined in their own class body)."""
+
+    def filter_context(self, context):
+        return {k: v for k, v in context.items() if k in ('shared', f'for_{self.name}')}
+
+
+@labtech.task
+class NG(_SubsetFilterMixin):
+    """Same filter as NF, inherited from a mixin."""
+    name: str
+    one: Any = None
+    many: Any = ()
+    named: Any = None
+    p: Any = None
+
+    def run(self):
+        return run_body(self)
+
+
 @labtech.task
 class NZ:
     """A task type whose instances are falsy (defines __bool__)."""
@@ -306,8 +326,8 @@ class N__U_:
         return run_body(self)
 
 
-TYPES = {c.__name__: c for c in (NA, NB, NC, ND, NN, NJ, NF, NP, NAX, NS, NSJ, NSP, NM, NK, NT, NE, NZ, N__U_, NR, _ple)}
-MAX_PARALLEL = {'_ple': None, 'NR': None, 'N__U_': None, 'NSP': None, 'NZ': None, 'NE': None, 'NT': None, 'NM': 2, 'NK': 1, 'NS': None, 'NSJ': None, 'NA': None, 'NB': 1, 'NC': 2, 'ND': 3, 'NN': None, 'NJ': None, 'NF': None, 'NP': None, 'NAX': None}
+TYPES = {c.__name__: c for c in (NA, NB, NC, ND, NN, NJ, NF, NP, NAX, NS, NSJ, NSP, NM, NK, NT, NE, NZ, N__U_, NR, _ple, NG)}
+MAX_PARALLEL = {'NG': None, '_ple': None, 'NR': None, 'N__U_': None, 'NSP': None, 'NZ': None, 'NE': None, 'NT': None, 'NM': 2, 'NK': 1, 'NS': None, 'NSJ': None, 'NA': None, 'NB': 1, 'NC': 2, 'ND': 3, 'NN': None, 'NJ': None, 'NF': None, 'NP': None, 'NAX': None}
 UNCACHED = {'NN', 'NM', 'NR'}
 
 
@@ -315,7 +335,7 @@ def filter_ctx(tname, name, ctx):
     """Harness-side statement of what each type's filter_context selects."""
     if ctx is None:
         return None
-    if tname == 'NF':
+    if tname in ('NF', 'NG'):
         return {k: v for k, v in ctx.items() if k in ('shared', f'for_{name}')}
     if tname == 'NE':
         return {}
